@@ -240,6 +240,10 @@ def tamper(t, wires, cookies=()):
         for w in wires[1:]:
             out += [59, 32] + list(w)
         return out
+    if k == 8 and wires:
+        # text appended to the cookie VALUE: inserted before the closing quote of the first cookie
+        w1 = list(wires[0])
+        return w1[:-1] + list(t['repl']) + w1[-1:] if w1 else w1
     if k == 7:
         # one character of the header written as its percent escape
         if not hdr:
@@ -369,6 +373,11 @@ def corpus():
         scn([('sid', obj, S)], dict(kind=6, a=0, b=1, repl=cps('partitioned=1'))),       # ... last
         scn([('sid', obj, S), ('b', 'two', None)], dict(kind=6, a=0, b=2, repl=cps('Priority=x'))),   # ... in the middle
         scn([('sid', obj, S)], dict(kind=6, a=0, b=0, repl=cps('path=/'))),              # a REAL attribute word: the parser gives up
+        scn([('a', 'x\u0145y', None)]), scn([('a', '\u5145', None), ('b', 'two', None)], rname='b'),   # UTF-8 with byte 0x85
+        scn([('a', 'v\x85w\x0b\x1c', None)]), scn([('a', '\u2005', None), ('b', obj, S)], rname='b', rsecret=S),
+        # a genuine signed cookie with one character appended to its value (legally quoted)
+        scn([('a', obj, S)], dict(kind=8, a=0, b=0, repl=cps('\\012'))), scn([('a', obj, S)], dict(kind=8, a=0, b=0, repl=cps('\\015'))),
+        scn([('a', obj, S)], dict(kind=8, a=0, b=0, repl=cps('='))), scn([('a', obj, S)], dict(kind=8, a=0, b=0, repl=cps('\\000'))),
         # percent signs are ordinary characters in a cookie: nothing is percent-decoded
         scn([('a', '100%25 %41%zz%', None)]), scn([('a', '%C3%A9', None)]), scn([('a', '%', None)]),
         scn([('a', obj, S)], dict(kind=7, a=10, b=0, repl=[])),                         # a signature character as %XX
@@ -476,7 +485,9 @@ def gen_text(rng, maxlen=12):
         return ''.join(rng.choice(['%', '%25', '%41', '%C3%A9', '%zz', '%2', 'a', '1', '%3B', '%22', '%0A'])
                        for _ in range(rng.randrange(1, 5)))
     elif r < 0.85:
-        al = 'ab' + ''.join(chr(c) for c in (0x80, 0xff, 0x100, 0x44f, 0x20ac, 0x1f600, 0x7ff, 0x800, 0xffff))
+        # incl. code points whose UTF-8 form contains the byte 0x85 (NEL under Latin-1): U+0145, U+5145, U+2005, U+1F145
+        al = 'ab' + ''.join(chr(c) for c in (0x80, 0xff, 0x100, 0x44f, 0x20ac, 0x1f600, 0x7ff, 0x800, 0xffff,
+                                             0x145, 0x5145, 0x2005, 0x1f145, 0x85, 0x1c, 0x0b, 0x2028))
     else:
         return ''.join(chr(rng.choice([rng.randrange(0, 256), rng.randrange(0, 0x3000), rng.randrange(32, 127)]))
                        for _ in range(n)).replace('\ud800', 'x')
@@ -569,6 +580,8 @@ def gen_tamper(rng, two):
         return gen_foreign(rng)
     if r < 0.45:
         return dict(kind=7, a=a, b=0, repl=[])
+    if r < 0.55:                                # genuine cookie + one appended character
+        return dict(kind=8, a=0, b=0, repl=cps(rng.choice(['\\012', '\\012', '\\015', '\\000', ' ', '=', 'A', '\\012\\012', '\\"'])))
     if r < 0.45:
         return dict(kind=1, a=a, b=1, repl=[rng.choice(SUBST + [rng.randrange(256)])])
     if r < 0.55:
@@ -1258,6 +1271,11 @@ def authentic(c):
     return cps((b'!' + sig + b'?' + msg).decode('ascii'))
 
 
+def has_cookie_value(hdr, val):
+    """the header carries exactly this (quoted) cookie value, nothing added inside the quotes"""
+    return contains(hdr, [61, 34] + val + [34])
+
+
 def contains(hay, needle):
     n = len(needle)
     return any(hay[i:i + n] == needle for i in range(len(hay) - n + 1))
@@ -1418,7 +1436,7 @@ def check_read(case, hdr, rname, rsec, got, loads):
     if loads is not None:
         if isinstance(loads, list) and loads[:1] == ['many']:
             return 'unpickler called more than once'
-        ok = [c for c in signed if c['secret'] == rsec and pk_of(c) == loads and contains(hdr, authentic(c))]
+        ok = [c for c in signed if c['secret'] == rsec and pk_of(c) == loads and has_cookie_value(hdr, authentic(c))]
         if not ok:
             return 'unpickler reached with bytes that are not an untouched cookie signed with this secret (%d bytes)' % len(loads)
     if got[0] in ('other', 'raise', 'cookie_error') and untouched(case):
@@ -1426,7 +1444,7 @@ def check_read(case, hdr, rname, rsec, got, loads):
     # 2. a value is only ever read from an untouched cookie of that name and secret
     if rsec and got[0] == 'val':
         c = cookies[got[1]]
-        if not (c['name'] == rname and c['secret'] == rsec and contains(hdr, authentic(c))):
+        if not (c['name'] == rname and c['secret'] == rsec and has_cookie_value(hdr, authentic(c))):
             return 'signed cookie accepted although it was altered / belongs to another name or secret'
     if rsec and got[0] in ('str', 'other'):
         return 'signed read returned something that did not pass verification: %s' % got[:1]
@@ -1440,7 +1458,12 @@ def check_read(case, hdr, rname, rsec, got, loads):
                     return 'signed cookie does not round-trip: got %s' % got[:2]
             elif not c['secret'] and not rsec:
                 if got != ['str', cps(c['value'])]:
-                    return 'plain cookie does not round-trip: set %r, read %s' % (c['value'][:20], describe(got))
+                    try:
+                        garbled = got == ['str', cps(c['value'].encode('utf8').decode('latin1'))]
+                    except UnicodeError:
+                        garbled = False
+                    return 'plain cookie does not round-trip%s: set %r, read %s' % (
+                        ' (its UTF-8 bytes read as Latin-1)' if garbled else '', c['value'][:20], describe(got))
     return None
 
 
@@ -1452,7 +1475,7 @@ def describe(got):
 
 def _plain_rt(case, what):
     return (case.get('mode') == 'scn' and untouched(case)
-            and (what == 'disagreement' or 'plain cookie does not round-trip' in str(what))
+            and 'plain cookie does not round-trip' in str(what)
             and 'depends on the reads before it' not in str(what))
 
 
@@ -1487,6 +1510,8 @@ def pred_attr_latin1(case, what, m):
 def pred_above_255(case, what, m):
     if not _plain_rt(case, what) or 'attribute access' in str(what):
         return False
+    if 'request.cookies[name]' not in str(what) and 'UTF-8 bytes read as Latin-1' not in str(what):
+        return False                            # another failure than the known garbling
     return any(isinstance(c['value'], str) and any(ord(ch) > 255 for ch in c['value'])
                and not c['name'].startswith('$') for c in _read_cookies(case, what))
 
@@ -1502,7 +1527,7 @@ def pred_dollar(case, what, m):
     if case.get('mode') != 'scn' or not untouched(case):
         return False
     return any(c['name'].startswith('$') for c in case['cookies']) and (
-        what == 'disagreement' or 'does not round-trip' in str(what)
+        'does not round-trip' in str(what)
         or 'reading an untouched cookie failed: [\'cookie_error\']' in str(what)) \
         and 'depends on the reads before it' not in str(what)
 
@@ -1536,7 +1561,7 @@ def classify(case, obs):
     if case['mode'] != 'scn':
         return case['mode']
     k = case['tamper']['kind']
-    t = ['untouched', 'splice', 'sigswap', 'replay', 'resigned', 'sigedit', 'foreign', 'percent'][k]
+    t = ['untouched', 'splice', 'sigswap', 'replay', 'resigned', 'sigedit', 'foreign', 'percent', 'appended'][k]
     kind = 'signed' if case['cookies'][0]['secret'] else 'plain'
     st = obs.get('st')
     return 'scn/%s/%s/%s/%s' % (kind, t, st, (obs.get('got') or ['-'])[0])
